@@ -30,7 +30,8 @@
    remembers) or page requests that begin at the caller's start point and advance through the
    listing.
 
-   Three forms of case:
+   Five forms of case ([CLong]: a long listing, names by family; [CErr]: a failing call probed at
+   error-body sizes around the client's limit - both described where they are defined), among them:
    [CHist]  a history over ocimem (everything above).
    [CFree]  a history over another registry (the harness's algstore: ocimem's manifests and
             tags, blobs under sha256 / sha384 / sha512 digests): [obs_ok] is the same
@@ -466,6 +467,128 @@ Definition big_ok (want : bigpush) (push : bigcall) (got : list bigpush) (reads 
   && forallb bigcall_ok reads
   && forallb (fun ab => bigres_eqb (fst ab) (snd ab)) snap.
 
+(* ---- long listings ----
+
+   The server's built-in page cap (ociserver maxPageSize = 10000), the client's default page
+   size (1000) and client page sizes above the cap only show on listings of more than ten
+   thousand names.  Such a listing is not spelled out in the case file: it names FAMILIES
+
+     fam pre w lo cnt  =  pre ++ the decimal numeral of i padded to w digits,  i = lo .. lo+cnt-1
+
+   (the harness fills both registries with fmt.Sprintf("%s%0*d", pre, w, i); the same vocabulary
+   as coq/Obs/C05.v) and what an iterator delivered as segments: runs of consecutive members of
+   a family and literally written names.  These are plain functions producing plain lists; the
+   specification sees nothing but the lists they compute. *)
+
+Fixpoint dinc (d : list N) : list N :=
+  match d with
+  | [] => []
+  | c :: d' => if (c =? 57)%N then 48%N :: dinc d' else N.succ c :: d'
+  end.
+
+Fixpoint digits_lsd (w : nat) (i : N) : list N :=
+  match w with
+  | O => []
+  | S w' => (48 + i mod 10)%N :: digits_lsd w' (i / 10)%N
+  end.
+
+Fixpoint fam_from (pre : bytes) (d : list N) (cnt : nat) : list bytes :=
+  match cnt with
+  | O => []
+  | S c => (pre ++ rev_append d []) :: fam_from pre (dinc d) c
+  end.
+
+Definition fam (pre : bytes) (w : nat) (lo cnt : N) : list bytes :=
+  fam_from pre (digits_lsd w lo) (N.to_nat cnt).
+
+Inductive seg := SFam (pre : bytes) (w : nat) (lo cnt : N) | SLit (x : bytes).
+
+Definition expand (l : list seg) : list bytes :=
+  flat_map (fun g => match g with SFam p w lo c => fam p w lo c | SLit x => [x] end) l.
+
+(* what one complete pass over a listing iterator delivered: the names, the trailing error *)
+Inductive lres := LList (l : list seg) (e : option ecode) | LPanic.
+
+Definition lres_o (r : lres) : oresult :=
+  match r with LList l e => OList (expand l) e | LPanic => OPanic end.
+
+(* one complete pass over the iterator value, made on both sides: direct, through the stack,
+   what the recording backend received meanwhile *)
+Record lpass := { lp_direct : lres; lp_via : lres; lp_trace : list bcall }.
+
+(* [lg_op]: Tags r start or Repositories start, called once per side; [lg_content]: the names
+   the listing ranges over in both registries, in listing order (the tags of r; the
+   repositories, every one of which holds a manifest - so that "unknown repository = empty
+   repository" plays no part and the lists must be EQUAL) *)
+Record longcase := { lg_cfg : scfg; lg_op : op; lg_content : list seg; lg_passes : list lpass }.
+
+(* the specification of a history's listing operation ([rel] and [trace_step] of
+   Model/Transparent.v) on a registry whose repositories all hold content: the same names in the
+   same order and the same trailing error code - or the refusal the options document -, and the
+   backend asked exactly the page requests of the table (one hop) / page requests from the
+   caller's start point advancing through the listing (two hops) *)
+Definition long_pass_ok (cfg : scfg) (o : op) (p : lpass) : bool :=
+  let d := lres_o (lp_direct p) in
+  let v := lres_o (lp_via p) in
+  (if refuses_lists cfg then oresult_eqb v refused_answer else rel_plain false o d v)
+  && fst (trace_step cfg tinit o v (lp_trace p)).
+
+Definition long_ok (c : longcase) : bool :=
+  is_listing (lg_op c)
+  && match lg_passes c with [] => false | _ => true end
+  && forallb (long_pass_ok (lg_cfg c) (lg_op c)) (lg_passes c).
+
+Definition long_start (o : op) : bytes :=
+  match o with Repositories st | Tags _ st => st | _ => [] end.
+
+(* the model's side: ocimem lists the names after the start point in order (Model/Mem.v, the
+   object of C02), and the stack hands them on (history-level transparency, Props/C03Stack.v) *)
+Definition long_direct_ok (c : longcase) (p : lpass) : bool :=
+  oresult_eqb (lres_o (lp_direct p)) (OList (filter (bltb (long_start (lg_op c))) (expand (lg_content c))) None).
+
+Definition long_delivered (c : longcase) : nat :=
+  fold_right (fun p n => Nat.max (length (via_list (lres_o (lp_via p)))) n) O (lg_passes c).
+
+(* ---- error answers around the client's limit on error bodies ----
+
+   ociclient reads at most errorBodySizeLimit = 8192 bytes of an error response (documented:
+   the maximum allowed); a longer body is reported as an error without code (C07's recorded
+   finding oversize-body).  One probe = one failing call made on both sides whose error answer,
+   as it travelled over the wire of every hop, had the body sizes [ep_sizes] (measured by the
+   harness at the servers, outermost first). *)
+
+Inductive eans := EAok | EAerr (c : ecode) | EApanic.
+
+Record eprobe := { ep_sizes : list Z; ep_direct : eans; ep_via : eans; ep_vstat : Z }.
+
+Definition err_body_limit : Z := 8192.
+
+Definition within_limit (p : eprobe) : bool := forallb (fun z => (z <=? err_body_limit)%Z) (ep_sizes p).
+
+(* same failure, same code whenever every body fits the documented limit; beyond it the failure
+   stays a failure that carries the direct code or none - none travels on as UNKNOWN through a
+   further hop (MarshalError) - never another one *)
+Definition code_lost (cv : ecode) : bool := ecode_eqb cv ENone || ecode_eqb cv UNKNOWN.
+
+Definition eprobe_ok (p : eprobe) : bool :=
+  match ep_direct p, ep_via p with
+  | EAok, EAok => true
+  | EAerr cd, EAerr cv =>
+      if within_limit p then code_rel false cd cv
+      else code_rel false cd cv || code_lost cv
+  | _, _ => false
+  end.
+
+Definition eprobe_model (p : eprobe) : bool :=
+  match ep_direct p, ep_via p with
+  | EAerr cd, EAerr cv =>
+      negb (ecode_eqb cd ENone)
+      && match ep_sizes p with [] => false | _ => true end
+      && (if within_limit p then ecode_eqb cd cv && (ep_vstat p =? status_class cd)%Z
+          else code_lost cv || ecode_eqb cv cd)
+  | _, _ => false
+  end.
+
 Inductive case :=
   | CHist (h : hist)
   | CFree (h : hist)
@@ -475,18 +598,26 @@ Inductive case :=
      C03_mem_history_transparent, two hops): the push succeeds on ocimem and every answer through
      the stack is the direct one. *)
   | CBig (cfg : scfg) (want : bigpush) (push : bigcall) (got : list bigpush) (reads : list bigcall)
-         (snap : list (bigres * bigres)).
+         (snap : list (bigres * bigres))
+  (* a long listing (names by family); model side: ocimem's listing handed on unchanged *)
+  | CLong (l : longcase)
+  (* one carrier of an error answer ([carrier]: informative) probed at body sizes around the
+     client's limit; model side: the code and the status of the code's table arrive whenever
+     the body fits *)
+  | CErr (cfg : scfg) (carrier : bytes) (probes : list eprobe).
 
 Definition obs_ok (c : case) : bool :=
   match c with
   | CHist h | CFree h => obs_ok_h h
   | CBig _ want push got reads snap => big_ok want push got reads snap
+  | CLong l => long_ok l
+  | CErr _ _ probes => match probes with [] => false | _ => forallb eprobe_ok probes end
   end.
 
 Definition known_case (c : case) : bool :=
   match c with
   | CHist h | CFree h => known_case_h h
-  | CBig _ _ _ _ _ _ => false
+  | CBig _ _ _ _ _ _ | CLong _ | CErr _ _ _ => false
   end.
 
 Definition model_agrees (c : case) : bool :=
@@ -496,6 +627,8 @@ Definition model_agrees (c : case) : bool :=
   | CBig _ want push got reads snap =>
       bg_ok (bc_direct push) && forallb (fun r => bg_ok (bc_direct r)) reads
       && big_ok want push got reads snap
+  | CLong l => forallb (long_direct_ok l) (lg_passes l) && long_ok l
+  | CErr _ _ probes => forallb eprobe_model probes && obs_ok c
   end.
 
 (* a free-backend history says something when a content under a digest that is not a sha256
@@ -510,13 +643,17 @@ Definition nontrivial (c : case) : bool :=
                          | _, _ => false
                          end) (combine (c_ops h) (c_via h))
   | CBig _ _ push _ _ _ => bg_ok (bc_via push)
+  | CLong l => (1000 <=? long_delivered l)%nat
+  | CErr _ _ probes => existsb (fun p => existsb (Z.eqb err_body_limit) (ep_sizes p)) probes
   end.
 
 Lemma corr_sound c : model_agrees c = true -> obs_ok c = true \/ known_case c = true.
 Proof.
-  destruct c as [h|h|cfg want push got reads snap]; cbn [model_agrees obs_ok known_case].
+  destruct c as [h|h|cfg want push got reads snap|l|cfg carrier probes]; cbn [model_agrees known_case].
   - apply corr_sound_h.
-  - intros H. unfold obs_ok_h, known_case_h. now apply forallb_not_vbad_split.
+  - intros H. cbn [obs_ok]. unfold obs_ok_h, known_case_h. now apply forallb_not_vbad_split.
+  - intros H. apply andb_true_iff in H as [_ H]. now left.
+  - intros H. apply andb_true_iff in H as [_ H]. now left.
   - intros H. apply andb_true_iff in H as [_ H]. now left.
 Qed.
 
@@ -528,19 +665,19 @@ Definition eff_ok_h (c : hist) : bool :=
   forallb is_vok vs || (negb (c_strict c) && forallb not_vbad vs && existsb is_vknown vs).
 
 Definition strict (c : case) : bool :=
-  match c with CHist h | CFree h => c_strict h | CBig _ _ _ _ _ _ => true end.
+  match c with CHist h | CFree h => c_strict h | _ => true end.
 
 Definition eff_ok (c : case) : bool :=
   match c with
   | CHist h | CFree h => eff_ok_h h
-  | CBig _ _ _ _ _ _ => obs_ok c
+  | _ => obs_ok c
   end.
 
 Lemma eff_ok_spec c : eff_ok c = obs_ok c || (negb (strict c) && known_case c).
 Proof.
-  destruct c as [h|h|]; cbn [eff_ok obs_ok known_case strict].
-  1,2: unfold eff_ok_h, obs_ok_h, known_case_h; now rewrite andb_assoc.
-  now rewrite orb_false_r.
+  destruct c as [h|h| | |]; cbn [eff_ok known_case strict].
+  1,2: cbn [obs_ok]; unfold eff_ok_h, obs_ok_h, known_case_h; now rewrite andb_assoc.
+  all: now rewrite orb_false_r.
 Qed.
 
 Definition mismatches (cs : list case) : list (N * bool) :=
